@@ -31,29 +31,55 @@ def _norm_arg(a, fam):
     return s
 
 
+def _collect(F, node, fam, depth, acc):
+    """Decoder-level facts of a dispatch arm, looking through private helper functions."""
+    for x in walk_all(node):
+        k = x.get("k")
+        if k == "Adt" and x.get("adt") == "%s::packet::Packet" % fam:
+            acc["variants"].append(x["variant"])
+            acc["unit"] = acc["unit"] or not x["fields"]
+        elif k == "Zst" and x.get("fn"):
+            d = x["fn"].get("res") or x["fn"].get("def") or ""
+            if d.startswith("%s::packet::Packet::" % fam) and d.rsplit("::", 1)[1] in {v["name"] for v in F.adts["%s::packet::Packet" % fam]["variants"]}:
+                acc["variants"].append(d.rsplit("::", 1)[1])
+        elif k == "Call":
+            fn = x["fn"]
+            d = fn.get("res") or fn.get("def") or ""
+            name = fn.get("name")
+            if d.startswith(fam + "::") and name in ("decode_async", "decode_with_protocol"):
+                acc["decoders"].append((d, tuple(_norm_arg(a, fam) for a in x["args"])))
+            elif d == "common::utils::read_u16":
+                acc["read_u16"] += 1
+            elif name == "try_from" and "Pid" in (fn.get("self_ty") or d):
+                acc["pid"] += 1
+            elif d.startswith("core::panicking"):
+                acc["panic"] += 1
+            elif d.startswith("%s::packet::Packet::" % fam) and d.rsplit("::", 1)[1][:1].isupper():
+                acc["variants"].append(d.rsplit("::", 1)[1])
+            elif d.startswith(fam + "::") and name.startswith("new") and fn.get("krate") == "mqtt_proto":
+                acc["ctors"].append(d)
+            elif fn.get("krate") == "mqtt_proto" and d in F.fns and depth < 3 and not d.startswith("common::utils::read_"):
+                b = nbody(F, d)
+                if b is not None:
+                    _collect(F, b, fam, depth + 1, acc)
+
+
 def _arm_descriptor(F, body, fam):
-    """What a dispatch arm does, independent of the front-end idiom (await? / block_on / map(Into::into))."""
-    body = unblock(body)
-    calls = [x for x in walk_all(body) if x.get("k") == "Call"]
-    dec = [c for c in calls if (c["fn"].get("res") or c["fn"].get("def") or "").startswith(fam + "::") and c["fn"].get("name") in ("decode_async", "decode_with_protocol")]
-    if len(dec) == 1:
-        c = dec[0]
-        return ("decoder", c["fn"].get("res") or c["fn"]["def"], tuple(_norm_arg(a, fam) for a in c["args"]))
-    rd = [c for c in calls if (c["fn"].get("def") or "") == "common::utils::read_u16"]
-    pid = [c for c in calls if c["fn"].get("name") == "try_from" and "Pid" in (c["fn"].get("self_ty") or c["fn"].get("def") or "")]
-    adts = [x for x in walk_all(body) if x.get("k") == "Adt" and x.get("adt") == "%s::packet::Packet" % fam]
-    if len(rd) == 1 and len(pid) == 1 and len(adts) == 1:
-        return ("pid-packet", adts[0]["variant"])
-    if any((c["fn"].get("def") or "").startswith("core::panicking") for c in calls):
+    """What a dispatch arm does, independent of the front-end idiom (await? / block_on / map(Into::into) /
+    private helper functions)."""
+    acc = {"variants": [], "unit": False, "decoders": [], "read_u16": 0, "pid": 0, "panic": 0, "ctors": []}
+    _collect(F, body, fam, 0, acc)
+    if len(acc["decoders"]) == 1 and not acc["read_u16"]:
+        return ("decoder",) + acc["decoders"][0]
+    if acc["read_u16"] == 1 and acc["pid"] == 1 and len(set(acc["variants"])) == 1 and not acc["decoders"]:
+        return ("pid-packet", acc["variants"][0])
+    if acc["panic"] and not acc["decoders"] and not acc["variants"]:
         return ("unreachable",)
-    if len(adts) == 1 and not adts[0]["fields"] and not dec:
-        ctor = [c for c in calls if c["fn"].get("name", "").startswith("new")]
-        if not ctor:
-            return ("unit", adts[0]["variant"])
-    ctor = [c for c in calls if (c["fn"].get("def") or "").startswith(fam + "::") and c["fn"].get("name", "").startswith("new")]
-    if len(ctor) == 1:
-        return ("ctor", ctor[0]["fn"]["def"])
-    return ("other", pp(body)[:100])
+    if len(acc["ctors"]) == 1 and not acc["decoders"]:
+        return ("ctor", acc["ctors"][0])
+    if len(set(acc["variants"])) == 1 and acc["unit"] and not acc["decoders"] and not acc["read_u16"]:
+        return ("unit", acc["variants"][0])
+    return ("other", pp(unblock(body))[:100])
 
 
 def _table(F, fid, fam):
@@ -67,23 +93,12 @@ def _table(F, fid, fam):
 
 
 def _ctor_value(F, fid, depth=0):
-    """Normalised description of the value a constructor function returns (inlining new_* -> new)."""
-    b = unblock(nbody(F, fid))
-    if b.get("k") == "Call" and depth < 3:
-        callee = b["fn"].get("res") or b["fn"].get("def")
-        inner = _ctor_value(F, callee, depth + 1) if callee in F.fns else None
-        if inner:
-            # bind parameters by position
-            f = F.fns[callee]
-            params = [p["pat"]["name"] for p in f["thir"]["params"] if p.get("pat") and p["pat"].get("k") == "Binding"]
-            out = dict(inner)
-            for k, v in inner.items():
-                if v in params:
-                    out[k] = pp(strip(b["args"][params.index(v)]))
-            return out
-    if b.get("k") == "Adt":
-        return {f["name"]: pp(strip(f["e"])) for f in b["fields"]}
-    return None
+    """The value a constructor function returns, by partial evaluation."""
+    from peval import PE, Undecided
+    try:
+        return PE(F).call_fn(fid, [])
+    except Undecided:
+        return None
 
 
 def h_dispatch3(F, R):
@@ -143,44 +158,33 @@ def h_dispatch3(F, R):
 
 
 def _same_value(a, b):
-    def norm(s):
-        return s.replace("core::default::Default::default()", "DEFAULT").replace("<", "").replace(">", "")
-    if set(a) != set(b):
-        return False
-    for k in a:
-        x, y = a[k], b[k]
-        if x == y:
-            continue
-        if "default" in x.lower() and "default" in y.lower():
-            continue
-        return False
-    return True
+    return a is not None and a == b
 
 
 def _zero_len_value(F, fid):
-    """The struct the body decoder builds in its `header.remaining_len == 0` branch."""
-    b = nbody(F, fid)
-    for x in walk_all(b):
-        if x.get("k") == "If":
-            c = unblock(x["cond"])
-            if c.get("k") == "Binary" and c["op"] == "Eq" and const_eval(c["r"]) == 0 and pp(strip(c["l"])).endswith("remaining_len"):
-                t = unblock(x["then"])
-                if t.get("k") == "Adt":
-                    return {f["name"]: pp(strip(f["e"])) for f in t["fields"]}
-                if t.get("k") == "Tuple":
-                    # (reason_code, properties) tuple later moved into the struct by position
-                    for y in walk_all(b):
-                        if y.get("k") == "Adt" and y.get("adt", "").startswith(fid.rsplit("::", 1)[0].rsplit("::", 1)[0]) and len(y["fields"]) == len(t["items"]):
-                            names = [f["name"] for f in y["fields"]]
-                            # map by the let-pattern order
-                            for z in walk_all(b):
-                                if z.get("k") == "Block":
-                                    for s in z.get("stmts", []):
-                                        if s["k"] == "Let" and s.get("init") is x and s["pat"].get("k") == "Leaf":
-                                            order = [q["pat"].get("name") for q in s["pat"]["subs"]]
-                                            vals = dict(zip(order, [pp(strip(i)) for i in t["items"]]))
-                                            return {f["name"]: vals.get(pp(strip(f["e"])), pp(strip(f["e"]))) for f in y["fields"]}
-    return None
+    """The value the body decoder returns for a header with remaining length 0 (no read may happen)."""
+    from peval import PE, Sym, Adt, Undecided
+    from r_pe import result_kind
+    touched = []
+
+    def hook(d, res, args, node, env):
+        r = res or d
+        if r.startswith("common::utils::read_") or r == "common::utils::decode_var_int" or r.endswith("decode_async") and r != fid:
+            touched.append(r)
+            return Sym("read")
+        return None
+    fam = fid.split("::")[0]
+    typ = fid.split("::")[2]
+    hdr = Adt("%s::packet::Header" % fam, "Header", {"typ": Adt("%s::packet::PacketType" % fam, typ), "remaining_len": 0,
+                                                    "dup": False, "retain": False, "qos": Adt("common::types::QoS", "Level0")})
+    try:
+        r = PE(F, call_hook=hook).call_fn(fid, [Sym("reader"), hdr])
+    except Undecided:
+        return None
+    k = result_kind(r)
+    if k[0] != "ok" or touched:
+        return None
+    return k[1]
 
 
 def h_hdr1(F, R):
